@@ -1,5 +1,5 @@
 SPECIFICATION Spec
-CONSTANT Triples = FALSE
+CONSTANTS Triples = FALSE ChainLen = 0
 INVARIANT LoopsDecideTheRules
 INVARIANT OutIsConsistent
 CHECK_DEADLOCK FALSE
